@@ -252,12 +252,13 @@ CLAIMED.update({
 
 CLAIMED.update({
     "C23": {
-        "technique": "static analysis: path enumeration over MIR per const-generic instantiation (set/restore pairing, direction table) + origin tracking of interval bounds",
+        "technique": "static analysis: path enumeration over MIR per const-generic instantiation (set/restore pairing, direction table) + origin tracking of interval bounds and of returned pair components (contradiction rule)",
         "level": ("Static: alter_fp_rounding_mode saves, sets, runs the operation and restores the FP rounding mode on every path, upward "
                   "for UPPER=true and downward for UPPER=false; in the 7 functions that build an interval from directed bound "
                   "computations the lower bound derives only from *_bounds::<false> and the upper only from *_bounds::<true> (all "
-                  "explored paths); get_inverse_op is the arithmetic inverse and an involution. A thin necessary condition for float "
-                  "bounds never being rounded inwards; the rest of interval soundness (propagation, casts, cardinality) is not decided."),
+                  "explored paths); get_inverse_op is the arithmetic inverse and an involution; no function answering a pair of refined intervals "
+                  "for two operands builds the pair in both orders (pair orientation, 5 functions). Thin necessary conditions for float "
+                  "bounds never being rounded inwards and for propagation not swapping its children; the bound computations, casts and cardinality are not decided."),
     },
 })
 
